@@ -98,7 +98,7 @@ pub open spec fn builtin_rule_applies(i: &Identity, e: &EntrySealedCommitted) ->
 // ---- the drivers: search_related_acp / filter_entries (access/mod.rs) ----
 // AccessControlSearch.attrs is a BTreeSet<Attribute>; `is_disjoint` against the requested attribute set
 impl KvxAttrVec { #[verifier::external_body] pub fn is_disjoint(&self, o: &BTreeSet<Attribute>) -> (r: bool) ensures r == self@.to_set().disjoint(o@) { unimplemented!() } }
-// Filter::get_attr_set (filter.rs): the attributes named by the terms of the original filter — uninterpreted observer
+// Filter::get_attr_set (filter.rs): the attributes named by the terms of the original filter — uninterpreted observer here; the real FilterComp::get_attr_set is under contract in unit attr_set
 impl Filter<FilterValid> { pub uninterp spec fn attr_set(&self) -> Set<Attribute>;
     #[verifier::external_body] pub fn get_attr_set(&self) -> (r: BTreeSet<Attribute>) ensures r@ == self.attr_set() { unimplemented!() } }
 // statement level: a read grant "whose receiver and target both match that identity and that entry", over the profile state itself
